@@ -15,7 +15,8 @@ AUDIT = "Ymq.Audit.C10"
 THEOREMS = ["Ymq.C10." + t for t in (
     "dispatch_ok pack_unpack cycExact_exact kronecker_cyclic kronecker_old_index_drops_wrap "
     "reduce_spec add_assign_spec add_small_spec sub_assign_spec butterfly_spec shl_spec shr_spec sqrt2_sq twiddle_spec root_pow "
-    "root_half crt_unique crt_value crt_q_estimate_partial ntt_table_ok dft_conv").split()]
+    "root_half crt_unique crt_value crt_q_estimate_partial ntt_table_ok dft_conv "
+    "basic_mul_spec karatsuba_spec karatsuba_domain mul_karatsuba_spec mul_karatsuba_zmod").split()]
 HYPOTHESES = []
 PROFILES = ["release", "chk"]
 TIMEOUT = 60.0
@@ -43,6 +44,9 @@ MODELLED = [
     "panic site (Ymq/Model/FInt.lean)",
     "arith_fft::MultiZmodP::{new (tables without roots of unity), from_mint, _crt (three quotient-estimate branches, column loop, "
     "carry assert), redc} (Ymq/Model/Crt.lean)",
+    "arith_poly::Poly::{_basic_mul (double loop with the first-term rule), karatsuba (threshold, split point, three recursive products, "
+    "recombination, buffer reuse incl. stale contents), mul_karatsuba, mul_basic} over abstract coefficient operations, run by the driver on "
+    "residues mod n (Ymq/Model/PolyMul.lean)",
 ]
 UNMODELLED = [
     "ZmodN::{mul, add, sub, redc, redc_large} are exact modular arithmetic on residues on the domain proved in C07 (redc_large_spec, "
@@ -430,6 +434,13 @@ def poly_cases(rng, tier, extended):
                 lq = rng.choice(cand)
             q = coeffs(rng, n, lq, kind)
             out.append(Case(f"pf_mul_karatsuba {n} {fmt(p)} {fmt(q)}"))
+            out.append(Case(f"pf_mul_basic {n} {fmt(p[:20])} {fmt(coeffs(rng, n, rng.randrange(1, min(len(p[:20]), 20) + 1)))}"))
+            if L > 20 and rng.randrange(2) == 0:
+                # outside the domain (unbalanced operands): the mechanism model predicts the checked profile exactly,
+                # garbage coefficients and panic sites included; no oracle
+                bad = [x for x in range(1, L + 1) if not kara_ok(L, x, 2 * L, 6 * L)]
+                if bad:
+                    out.append(Case(f"pf_mul_karatsuba {n} {fmt(p)} {fmt(coeffs(rng, n, rng.choice(bad)))}", o=False, profiles=["chk"]))
             # FFT product
             lq = rng.choice([L, L, max(1, L - 1), max(1, L // 2), 1])
             if L == 1:
